@@ -444,3 +444,23 @@ Proof. repeat split; vm_compute; reflexivity. Qed.
 Example ex_zero_based_premise :
   let v := mkviol 3 7 None [] in 1 <= v_line v < 4294967296 /\ 1 <= v_pos v < 4294967296.
 Proof. cbn. lia. Qed.
+
+(** * The server before the second repair: templater frozen at start-up
+    [Linter::new] chooses the templater from the configuration; the legacy server replaced only the
+    configuration on a configuration save. With [lint2 tc c t] = "lint [t] with the templater named by
+    configuration [tc] and everything else from [c]", the legacy server is the same state machine run
+    with the oracle [lint2 c0] (the start-up configuration's templater), whereas the lint of a text under
+    configuration [c] is [lint2 c c t]. Diagnostics after a templater switch are then not those of the
+    latest configuration. *)
+Definition w_lint2 (tc c : N) (t : text) : list viol := [mkviol (1 + tc) (1 + c) None []].
+Definition w_ops2 : list (op N) := [WriteDisk 1; Save dot_sqruff; Open 0 [97]].
+
+Theorem diag_latest_legacy_templater_refuted :
+  exists (lint2 : N -> N -> text -> list viol) fixer c0 (ops : list (op N)) u t,
+    a_docs (arun N (ainit N c0) ops) u = Some t
+    /\ last_publish u (outputs N (lint2 c0) fixer format_edit (init N c0) ops)
+       <> Some (map to_diag (lint2 (a_conf (arun N (ainit N c0) ops)) (a_conf (arun N (ainit N c0) ops)) t)).
+Proof.
+  exists w_lint2, (fun _ t => t), 0, w_ops2, 0, [97].
+  split; [reflexivity|]. vm_compute. discriminate.
+Qed.
